@@ -21,6 +21,30 @@ from mc import env, wfgen, wfscn, cmdscn, refmodel
 PROP = 'C08'
 
 
+def install_timeout_monitor():
+    """W.events gets ('timeout_job', task name, state before, state after)
+    for every invocation of the timeout timer job."""
+    from mistral.engine import policies as pol
+    if getattr(pol, '_verif_timeout_monitor', False):
+        return
+    pol._verif_timeout_monitor = True
+    orig = pol._fail_task_if_incomplete
+
+    def st(task_ex_id):
+        r = cmdscn.q("select name, state from task_executions_v2 "
+                     "where id=?", (task_ex_id,))
+        return r[0] if r else (None, None)
+
+    def wrapped(task_ex_id, timeout):
+        name, before = st(task_ex_id)
+        try:
+            return orig(task_ex_id, timeout)
+        finally:
+            env.W.events.append(('timeout_job', name, before,
+                                 st(task_ex_id)[1]))
+    pol._fail_task_if_incomplete = wrapped
+
+
 class PolicyScenario(cmdscn.CmdScenario):
     def __init__(self, name, prog, clock_devs=0, **kw):
         super(PolicyScenario, self).__init__(name, prog, **kw)
@@ -42,6 +66,7 @@ class PolicyScenario(cmdscn.CmdScenario):
         return self._model
 
     def setup(self):
+        install_timeout_monitor()
         super(PolicyScenario, self).setup()
         env.W.extra['clock_devs'] = 0
         env.W.extra['delayed'] = {}
@@ -94,6 +119,15 @@ class PolicyScenario(cmdscn.CmdScenario):
             if not is_mistral and 'already completed' not in text:
                 v.append('engine entry point failed with undeclared error '
                          '%s at %s: %s' % (cls, where, text))
+        # a timeout job that finds its task incomplete fails it, whatever
+        # state the task is parked in (monitor installed in setup)
+        ev = w.events
+        for e in ev[getattr(w, '_c08_seen', 0):]:
+            if e[0] == 'timeout_job' and e[2] == e[3] and e[2] not in (
+                    'SUCCESS', 'ERROR', 'CANCELLED', 'SKIPPED', None):
+                v.append('the timeout of task %s expired (its timer job '
+                         'ran) but the task was left %s' % (e[1], e[2]))
+        w._c08_seen = len(ev)
         pre_t = {t['id']: t for t in pre['task_executions_v2']}
         for t in post['task_executions_v2']:
             p = pre_t.get(t['id'])
